@@ -152,6 +152,7 @@ class Walker:
         self.src = src
         self.mods: Dict[str, ast.Module] = {}
         self.notes: List[str] = []
+        self.bound: Dict[int, Tuple[set, Dict[str, str]]] = {}      # id(FunctionDef) -> aliases bound through its parameters
 
     def module_of(self, cls: str) -> ast.Module:
         fn = CLASS_FILE.get(cls)
@@ -177,9 +178,13 @@ class Walker:
         return None
 
     # ---- aliases of the storage backend / the managers held in local variables of a function
-    @staticmethod
-    def aliases(fn: ast.FunctionDef) -> Tuple[set, Dict[str, str]]:
-        storage, managers = set(), {}
+    def aliases(self, fn: ast.FunctionDef) -> Tuple[set, Dict[str, str]]:
+        b = self.bound.get(id(fn), (set(), {}))
+        storage, managers = set(b[0]), dict(b[1])
+        # a parameter / local that is NAMED like the backend is taken to be the backend
+        for a in list(fn.args.args) + list(fn.args.kwonlyargs):
+            if a.arg in ("storage", "backend", "storage_backend") or a.arg.endswith(("_storage", "_backend")):
+                storage.add(a.arg)
         for n in ast.walk(fn):
             if isinstance(n, ast.Assign) and len(n.targets) == 1 and isinstance(n.targets[0], ast.Name):
                 d = _dotted(n.value) if isinstance(n.value, (ast.Attribute, ast.Name)) else ""
@@ -221,12 +226,14 @@ class Walker:
             if target in stack:
                 raise Unsupported(f"post-commit tail: recursive call {target[0]}.{target[1]} at {where}")
             m = self.method(*target)
+            self._bind(c, m, st_alias, mgr_alias, skip_self=not any(isinstance(d, ast.Name) and d.id == "staticmethod" for d in m.decorator_list))
             return self.region(m.body, guarded, target[0], m, stack + (target,))[0]
         if len(parts) == 1:
             mf = self.module_function(cls, parts[0])
             if mf is not None:
                 if (cls, "::" + parts[0]) in stack:
                     raise Unsupported(f"post-commit tail: recursive call {parts[0]} at {where}")
+                self._bind(c, mf, st_alias, mgr_alias, skip_self=False)
                 return self.region(mf.body, guarded, cls, mf, stack + ((cls, "::" + parts[0]),))[0]
         # known to touch neither storage nor the lock
         if name in PURE_NAMES or parts[0] == "logger" or (parts[-1][:1].isupper() and len(parts) <= 2):
@@ -254,6 +261,26 @@ class Walker:
         if len(parts) >= 3 and parts[0] == "self" and parts[1].startswith("_") and parts[1] not in ("_lock",):
             return EPS                           # a method of a private container attribute (self._operations.append ...)
         raise Unsupported(f"post-commit tail: call outside the known vocabulary: {name} at {where}")
+
+    def _bind(self, c: ast.Call, callee: ast.FunctionDef, st_alias: set, mgr_alias: Dict[str, str], skip_self: bool) -> None:
+        """An argument that IS the storage backend / the lock provider / a manager makes the callee's parameter an alias."""
+        params = [a.arg for a in callee.args.args]
+        if skip_self and params:
+            params = params[1:]
+        pairs = list(zip(params, c.args)) + [(k.arg, k.value) for k in c.keywords if k.arg]
+        st, mg = self.bound.setdefault(id(callee), (set(), {}))
+        for name, arg in pairs:
+            d = _dotted(arg) if isinstance(arg, (ast.Attribute, ast.Name)) else ""
+            if not d:
+                continue
+            if d.endswith(".storage") or d in st_alias:
+                st.add(name)
+            elif d.endswith(".lock_provider") or mgr_alias.get(d) == "<lock>":
+                mg[name] = "<lock>"
+            elif d.startswith("self.") and d.count(".") == 1 and d.split(".")[1] in ATTR_CLASS:
+                mg[name] = ATTR_CLASS[d.split(".")[1]]
+            elif d in mgr_alias:
+                mg[name] = mgr_alias[d]
 
     def exprs(self, node: Optional[ast.AST], guarded: bool, cls: str, fn: ast.FunctionDef, stack) -> tuple:
         """Calls of an expression in evaluation (post-) order."""
